@@ -697,10 +697,41 @@ fn is_branch(i: usize) -> bool {
 ///
 /// The leaf index `i` maps to a tree index `j = 2 * i`.
 /// `j` is said to fall inside the tree if `j < n`.
+///
+/// A leaf index whose tree index is not representable as `usize` lies outside of every tree.
 #[inline]
 fn is_leaf_index_in_tree(i: usize, n: usize) -> bool {
-    let j = leaf_index_to_tree_index(i);
-    is_tree_index_in_tree(j, n)
+    i.checked_mul(2)
+        .is_some_and(|j| is_tree_index_in_tree(j, n))
+}
+
+/// The largest tree size for which the index calculations of this crate are defined.
+///
+/// A tree of `n` nodes occupies `32 * n` bytes, so no tree that can be held in memory comes
+/// close to this bound.
+const MAX_TREE_SIZE: usize = usize::MAX >> 1;
+
+/// Returns the number of hashes in the audit path of the leaf at tree index `i` in a tree of
+/// size `n`, i.e. the number of nodes visited when walking from the leaf up to the root.
+///
+/// Returns `None` if `n` exceeds [`MAX_TREE_SIZE`] or if `i` does not fall inside the tree.
+fn audit_path_len(i: usize, n: usize) -> Option<usize> {
+    if n > MAX_TREE_SIZE || !is_tree_index_in_tree(i, n) {
+        return None;
+    }
+    let root = complete_root(n);
+    let mut i = i;
+    let mut len = 0usize;
+    // Every perfect ancestor of `i` that falls inside the tree is a node of its audit path. The
+    // root is an ancestor of all nodes of the tree, so the walk ends after at most `usize::BITS`
+    // steps.
+    while i != root {
+        i = perfect_parent(i);
+        if is_tree_index_in_tree(i, n) {
+            len = len.saturating_add(1);
+        }
+    }
+    Some(len)
 }
 
 /// Returns if a tree index `i` is part of  tree.
